@@ -286,7 +286,9 @@ impl Prop for C01 {
                 }
                 module("M", "AUTOMATIC", false, &body)
             };
-            push(format!("shape:{}", c.ty.kind()), vec![src], d.clone());
+            // (one input class for everything that mentions the type the lexer does not know)
+            let label = if src.contains("ObjectDescriptor") { "shape:ObjectDescriptor".to_string() } else { format!("shape:{}", c.ty.kind()) };
+            push(label, vec![src], d.clone());
         }
         // --- OF towers around anonymous types inside components (hoisting must see through every OF level)
         for t in c02::of_towers(if tier.thorough() { 3 } else { 2 }) {
